@@ -457,7 +457,7 @@ def run_real(res, path):
 # ----------------------------------------------------------------------------------------
 # (e) DOMs reached by accepted edits: every history of edits up to a depth, each judged by the same round trip
 
-EDIT_BASE = ('@namespace p "u";\n/*c*/\n@import "i.css" print;\n@media print{a{color:blue ! IMPORTANT;top:0}}\n'
+EDIT_BASE = ('@import /*k*/ "j.css";\n@import "i.css" print;\n@namespace p "u";\n/*c*/\n@media print{a{color:blue ! IMPORTANT;top:0}}\n'
              'a,p|b{color:blue !important;margin:0 1px;left:1px}\n@page :first{margin:1cm;@top-left{color:red !important}}\n@font-face{font-family:x}')
 
 
@@ -474,6 +474,10 @@ def _st(sheet, which):
 
 def _first(sheet, typ):
     return [r for r in sheet.cssRules if r.type == typ][0]
+
+
+def _imports(sheet):
+    return [r for r in sheet.cssRules if r.type == cssutils.css.CSSRule.IMPORT_RULE]
 
 
 _R = cssutils.css.CSSRule
@@ -502,8 +506,14 @@ EDITS.update({
     'media.appendMedium(tv)': lambda s: _first(s, _R.MEDIA_RULE).media.appendMedium('tv'),
     'media.deleteMedium(print)': lambda s: _first(s, _R.MEDIA_RULE).media.deleteMedium('print'),
     'media.mediaText=': lambda s: setattr(_first(s, _R.MEDIA_RULE).media, 'mediaText', 'tv, screen and (color)'),
-    'import.media.mediaText=': lambda s: setattr(_first(s, _R.IMPORT_RULE).media, 'mediaText', 'all'),
-    'import.href=': lambda s: setattr(_first(s, _R.IMPORT_RULE), 'href', 'j k.css'),
+    'import.media.mediaText=': lambda s: setattr(_imports(s)[1].media, 'mediaText', 'all'),
+    'import.href=': lambda s: setattr(_imports(s)[1], 'href', 'j k.css'),
+    # (the import whose target follows a comment and that has no media list of its own)
+    'import0.media.mediaText=': lambda s: setattr(_imports(s)[0].media, 'mediaText', 'print'),
+    'import0.media=': lambda s: setattr(_imports(s)[0], 'media', 'screen, print'),
+    'import0.media.appendMedium': lambda s: _imports(s)[0].media.appendMedium('tv'),
+    'import0.name=': lambda s: setattr(_imports(s)[0], 'name', 'n'),
+    'import0.href=': lambda s: setattr(_imports(s)[0], 'href', 'l.css'),
     'page.selectorText=': lambda s: setattr(_first(s, _R.PAGE_RULE), 'selectorText', 'n:left'),
     'namespaces[q]=u': lambda s: s.namespaces.__setitem__('q', 'u'),
     'namespace.prefix=r': lambda s: setattr(_first(s, _R.NAMESPACE_RULE), 'prefix', 'r'),
